@@ -92,6 +92,36 @@ class SaveLoad(Suite):
             if rest:
                 out[-1]["vals"] = rest[0]
         out.extend(self.resave_cases(rng, big))
+        out.extend(self.long_axis_cases(rng, big))
+        return out
+
+    # stacks with a LONG axis (a deep z-stack of thin planes, a long strip): the usual generated shapes have axes of 1..7 voxels, real stacks have
+    # hundreds of planes.  One (sometimes two) of X / Y / Z is long - lengths from a few dozen to a few hundred, mostly NOT a multiple of a power
+    # of two (whatever is processed plane-block by plane-block has a ragged last block), some exact multiples - the other axes stay small, so
+    # every voxel is still compared.  Stratified per axis by what the save does: float -> unsigned, unsigned -> float (the documented
+    # rescaling), no conversion.
+    def long_axis_cases(self, rng, big):
+        out = []
+        def length(exact=False):
+            if exact:
+                return rng.choice([32, 64, 128]) * rng.randint(1, 3)          # an exact multiple
+            n = rng.randint(70, 400)
+            while n % 8 == 0:
+                n += rng.randint(1, 7)
+            return n
+        conv = {"to-uint": lambda: ("float32", rng.choice(["uint8", "uint16"])), "to-float": lambda: (rng.choice(["uint8", "uint16"]), rng.choice(["float32", "float64"])),
+                "plain": lambda: (rng.choice(["uint8", "uint16", "float32"]), None)}
+        axes = [(ax,) for ax in range(3)] * (3 if big else 1) + [tuple(sorted(rng.sample(range(3), 2)))]
+        plan = [(la, what, False) for la in axes for what in ["to-uint", "to-float", "plain"]]
+        plan += [((rng.randrange(3),), what, True) for what in ["to-uint", "to-float"] * (3 if big else 1)]
+        for long_axes, what, exact in plan:
+            kind, sd = conv[what]()
+            shape = [rng.choice([1, 2, 3, 4]) for _ in range(3)] + [rng.choice([1, 1, 3])]
+            for ax in long_axes:
+                shape[ax] = length(exact) if len(long_axes) == 1 else rng.randint(20, 45)
+            rd = rng.choice(["same", "same", "float32", "uint8"]) if (sd or kind) != "float64" else "same"
+            out.append({"class": f"tif/long-{''.join('XYZ'[a] for a in long_axes)}{'-pow2-multiple' if exact else ''}/{what}/{kind}->{sd}->{rd}", "shape": shape, "kind": kind, "fmt": "tif",
+                        "save_dtype": sd, "read_dtype": rd, "seed": rng.randrange(10**6), "drop_c": shape[3] == 1 and rng.random() < 0.4, "opts": "-"})
         return out
 
     # ONE in-memory stack saved more than once (an 8-bit preview and the full-precision file, a TIFF and an NPY copy, ...): the stack is an
@@ -339,9 +369,10 @@ def in_hull(p, a, b, ra, rb, margin):
     return -1 if best < -margin else (1 if best > margin else 0)
 
 
-def hull_side(P, a, b, ra, rb, margin):
-    """`in_hull` for many points at once: array of -1 / 0 / +1 (inside by margin / near the surface / outside by margin)"""
-    ts = np.linspace(0, 1, 41)
+def hull_side(P, a, b, ra, rb, margin, samples=41):
+    """`in_hull` for many points at once: array of -1 / 0 / +1 (inside by margin / near the surface / outside by margin).  The sampled balls are
+    redundant (the two end balls decide when one contains the other, the stationary point below decides otherwise): `samples` may be lowered"""
+    ts = np.linspace(0, 1, samples)
     c = a[None, :] + ts[:, None] * (b - a)[None, :]; rr = ra + ts * (rb - ra)
     best = np.min(np.linalg.norm(P[:, None, :] - c[None, :, :], axis=2) - rr[None, :], axis=1)
     L = float(np.linalg.norm(b - a))
@@ -352,6 +383,27 @@ def hull_side(P, a, b, ra, rb, margin):
     return np.where(best < -margin, -1, np.where(best > margin, 1, 0))
 
 
+def hull_depth_many(P, A, B, RA, RB, chunk=128):
+    """min over the edges (A[e], B[e], RA[e], RB[e]) of the signed distance of every point of P to the round cone of the edge (negative inside):
+    the nearest ball of the family is an end ball, or the one at the stationary point (as in `in_hull`); all edges of a chunk at once"""
+    best = np.full(len(P), 1e18)
+    for s in range(0, len(A), chunk):
+        a, b, ra, rb = A[s:s + chunk], B[s:s + chunk], RA[s:s + chunk], RB[s:s + chunk]
+        pa = P[:, None, :] - a[None, :, :]                                             # (V, E, 3)
+        d = np.minimum(np.linalg.norm(pa, axis=2) - ra[None, :], np.linalg.norm(P[:, None, :] - b[None, :, :], axis=2) - rb[None, :])
+        L = np.linalg.norm(b - a, axis=1)
+        ok = (L > 0) & (np.abs(rb - ra) < L)
+        if ok.any():
+            Ls = np.where(ok, L, 1.0); u = (b - a) / Ls[:, None]; k = np.where(ok, (rb - ra) / Ls, 0.0)
+            sdot = np.einsum("vek,ek->ve", pa, u); rho = np.linalg.norm(pa - sdot[:, :, None] * u[None, :, :], axis=2)
+            t = np.clip((sdot + k[None, :] * rho / np.sqrt(1 - k * k)[None, :]) / Ls[None, :], 0.0, 1.0)
+            c = a[None, :, :] + t[:, :, None] * (b - a)[None, :, :]
+            d2 = np.linalg.norm(P[:, None, :] - c, axis=2) - (ra[None, :] + t * (rb - ra)[None, :])
+            d = np.where(ok[None, :], np.minimum(d, d2), d)
+        best = np.minimum(best, d.min(axis=1))
+    return best
+
+
 def bbox_shape(xyz, r, rs):
     """bounding box of the balls and the (Z, X, Y) shape of the grid of voxel centres lo + (i + 1/2)·res inside it"""
     lo = np.floor(np.min(xyz - r.reshape(-1, 1), axis=0)); hi = np.ceil(np.max(xyz + r.reshape(-1, 1), axis=0))
@@ -359,7 +411,7 @@ def bbox_shape(xyz, r, rs):
     return lo, hi, [n[2], n[0], n[1]]
 
 
-def judge_raster(xyz, r, pids, rs, shape, lit, margin=0.08):
+def judge_raster(xyz, r, pids, rs, shape, lit, margin=0.08, samples=41):
     """the property's conclusion on ONE raster: findings [(key, msg)] for a (Z, X, Y) = `shape` stack with lit voxels `lit` of the tree
     (xyz, r, pids: parent INDEX per node, -1 for the root) at resolution `rs`"""
     lo, hi, want = bbox_shape(xyz, r, rs)
@@ -372,10 +424,16 @@ def judge_raster(xyz, r, pids, rs, shape, lit, margin=0.08):
     k, i, j = k.ravel(), i.ravel(), j.ravel()
     P = np.stack([lo[0] + (i + 0.5) * rs[0], lo[1] + (j + 0.5) * rs[1], lo[2] + (k + 0.5) * rs[2]], axis=1)
     inside = np.zeros(len(P), dtype=bool); near = np.zeros(len(P), dtype=bool)
+    if samples is None:
+        # thousands of edges: all of them at once
+        cs = [c for c, par in enumerate(pids) if par >= 0]; ps = [pids[c] for c in cs]
+        depth = hull_depth_many(P, xyz[ps], xyz[cs], r[ps].astype(float), r[cs].astype(float)) if cs else np.full(len(P), 1e18)
+        inside = depth < -margin; near = ~inside & (depth <= margin)
+        pids = []
     for c, par in enumerate(pids):
         if par < 0:
             continue
-        v = hull_side(P, xyz[par], xyz[c], float(r[par]), float(r[c]), margin)
+        v = hull_side(P, xyz[par], xyz[c], float(r[par]), float(r[c]), margin, samples)
         inside |= v == -1; near |= v == 0
     outside = ~inside & ~near
     is_lit = np.zeros(len(P), dtype=bool)
@@ -472,7 +530,70 @@ class Raster(Suite):
             out.append({"class": "n2/indivisible", "tree": t, "res": res})
         out.extend(self.branch_cases(rng, tier == "thorough" or widen))
         out.extend(self.seq_cases(rng, tier == "thorough" or widen))
+        out.extend(self.long_path_cases(rng, tier == "thorough" or widen))
         return out
+
+    # LONG UNBRANCHED RUNS: an axon, or any process of a resampled reconstruction, is a run of thousands of nodes a fraction of a micron apart.
+    # The tree contains a root-to-tip path longer than the interpreter's recursion limit (drawn above it by a few hundred to a few thousand
+    # nodes); the path meanders inside a small box, so the stack stays small and every voxel is judged.  Variants: the bare path, the root in
+    # the middle of it (two arms), short twigs along it, a small bushy tree with the long process leaving one of its nodes.
+    LONG = ["path", "two-arms", "twigs", "bush-then-path"]
+
+    def long_path_cases(self, rng, big):
+        import sys
+
+        out = []
+        limit = max(1000, sys.getrecursionlimit())
+        for v in (self.LONG * 2 if big else rng.sample(self.LONG, 3)):
+            spec = {"variant": v, "depth": limit + rng.randint(100, 3000 if big else 1500), "step": rng.choice([0.02, 0.05, 0.1]), "box": rng.choice([4.0, 5.0, 6.0]),
+                    "r": [rng.choice([0.5, 0.75, 1.0]), rng.choice([0.25, 0.5])], "seed": rng.randrange(10**6)}
+            out.append({"class": f"long-path/{v}/depth>{limit}", "long_path": spec, "res": rng.choice([0.5, 1.0, 0.75, [1.0, 0.5, 2.0], [0.5, 0.5, 1.0]]),
+                        "save": rng.random() < 0.5, "big": True})
+        return out
+
+    @staticmethod
+    def long_path_tree(spec):
+        """the tree description (n, pids, types, xyz, r; coordinates on the 1/1024 lattice) of a long-path case"""
+        import random
+
+        rng = random.Random(spec["seed"])
+        B, s = spec["box"], spec["step"]
+        pids, xyz, r = [-1], [[rng.uniform(1, B - 1) for _ in range(3)]], [spec["r"][0]]
+
+        def run(start, length, r0, r1):
+            d = [rng.gauss(0, 1) for _ in range(3)]
+            p, par = list(xyz[start]), start
+            for i in range(length):
+                d = [x + 0.15 * rng.gauss(0, 1) for x in d]
+                nrm = math.sqrt(sum(x * x for x in d)) or 1.0
+                d = [x / nrm for x in d]
+                for k in range(3):
+                    if not 0.0 <= p[k] + s * d[k] <= B:
+                        d[k] = -d[k]
+                p = [p[k] + s * d[k] for k in range(3)]
+                pids.append(par); xyz.append(list(p)); r.append(r0 + (r1 - r0) * (i + 1) / length)
+                par = len(pids) - 1
+            return par
+
+        v, D = spec["variant"], spec["depth"]
+        if v == "bush-then-path":
+            for _ in range(rng.randint(3, 8)):
+                run(rng.randrange(len(pids)), rng.randint(1, 3), spec["r"][0], spec["r"][0])
+            run(rng.randrange(len(pids)), D, *spec["r"])
+        else:
+            run(0, D, *spec["r"])
+            if v == "two-arms":
+                run(0, rng.randint(D // 4, D), *spec["r"])
+            if v == "twigs":
+                for _ in range(rng.randint(3, 10)):
+                    at = rng.randrange(1, D)
+                    run(at, rng.randint(1, 4), r[at], spec["r"][1])
+        q = lambda x: round(x * 1024) / 1024
+        return {"class": "long-path/" + v, "n": len(pids), "pids": pids, "types": [1] + [2] * (len(pids) - 1), "xyz": [[q(c) for c in p] for p in xyz], "r": [q(x) for x in r]}
+
+    @classmethod
+    def tree_of(cls, case):
+        return case["tree"] if "tree" in case else cls.long_path_tree(case["long_path"])
 
     # a BRANCH POINT one of whose compartments is degenerate (one end ball contains the other) while its siblings are ordinary processes: a thin
     # branch point next to a swelling / varicosity (the child's ball contains the branch point's), or a thick branch point (soma, bouton) with a
@@ -679,7 +800,9 @@ class Raster(Suite):
 
         if "steps" in case:
             return self.run_seq(case)
-        t = gen.make_tree(case["tree"])
+        td = self.tree_of(case)
+        long = "long_path" in case
+        t = gen.make_tree(td)
         # record which solid the scene builder creates for each edge (wrapping the constructors it looks up in its own module)
         solids, samplers = [], []
         saved = {k: getattr(mod, k) for k in ("Sphere", "RoundCone", "RangeSampler") if hasattr(mod, k)}
@@ -699,7 +822,10 @@ class Raster(Suite):
             for k, ctor in saved.items():
                 setattr(mod, k, ctor)
         res = {"shape": list(img.shape), "lit": np.argwhere(img > 0).tolist(), "values": sorted(set(int(v) for v in np.unique(img))), "solids": solids, "samplers": samplers}
-        if img.size and case["tree"]["n"] % 2 == 0:
+        if long:
+            # thousands of edges: the constructor calls are summarised (how many solids, for how many edges)
+            res.update({"solids": [], "n_solids": len(solids), "n_edges": td["n"] - 1})
+        if img.size and (case["save"] if long else td["n"] % 2 == 0):
             # the same raster written slice by slice to a TIFF and read back through the image-stack reader: (Z, X, Y) ↔ (X, Y, Z, C)
             # (a raster of ONE z plane is written as a single 2-D page which read_imgs refuses: known finding `raster-file-single-plane-raises`)
             import tempfile, shutil, os
@@ -722,7 +848,7 @@ class Raster(Suite):
     def lines(self, case, res):
         if "exc" in res or "steps" in case:
             return []
-        t = case["tree"]
+        t = self.tree_of(case)
         rs = case["res"] if isinstance(case["res"], list) else [case["res"]] * 3
         xyz = np.array(t["xyz"], dtype=np.float32); r = np.array(t["r"], dtype=np.float32).reshape(-1, 1)
         edge_lines = []
@@ -752,6 +878,8 @@ class Raster(Suite):
             centres = [float(lo[ax]) + rs[ax] / 2 + i * rs[ax] for i in range(n_expected)]
             out.append((f"imggrid lo={Fraction(float(lo[ax]))} hi={Fraction(float(hi[ax]))} res={Fraction(rs[ax])}",
                         ",".join(str(Fraction(c)) for c in centres)))
+        if "long_path" in case:
+            return out                                  # the voxel grid; the per-edge lines are for trees of a few nodes
         return out + edge_lines + self.gen_lines(t, rs, xyz, r, res)
 
     def gen_lines(self, t, rs, xyz, r, res):
@@ -850,7 +978,7 @@ class Raster(Suite):
         return out
 
     def _oracle(self, case, res):
-        t = case["tree"]
+        t = self.tree_of(case)
         rs = case["res"] if isinstance(case["res"], list) else [case["res"]] * 3
         xyz = np.array(t["xyz"], dtype=np.float64); r = np.array(t["r"], dtype=np.float64)
         lo = np.floor(np.min(xyz - r.reshape(-1, 1), axis=0)); hi = np.ceil(np.max(xyz + r.reshape(-1, 1), axis=0))
@@ -860,6 +988,9 @@ class Raster(Suite):
             if want_shape[0] == 0 and res["exc"] == "ValueError" and "at least one array to stack" in str(res.get("msg")):
                 # no voxel centre fits between the bottom and the top of the bounding box: there is no plane to stack
                 return [("raster-empty-z-grid-raises", f"resolution {rs} leaves no z plane in the bounding box {lo}..{hi}: ToImageStack.__call__ raises {res['exc']}: {res.get('msg')} instead of returning a (0, X, Y) stack")]
+            if "long_path" in case:
+                return [("raster-raises", f"{case['class']}: a tree of {t['n']} nodes with a root-to-tip path of {case['long_path']['depth']} nodes "
+                                          f"(long_path_tree({case['long_path']})), resolution {rs}: {res['exc']}: {res.get('msg')}")]
             return [("raster-raises", f"{res['exc']}: {res.get('msg')}")]
         out = []
         if "saved" in res and "exc" in res["saved"]:
@@ -876,9 +1007,9 @@ class Raster(Suite):
             out.append(("raster-shape", f"stack shape (Z,X,Y)={res['shape']}, the bounding box {lo}..{hi} at resolution {rs} needs {want_shape}"))
             return out
         Z, X, Y = res["shape"]
-        if Z * X * Y > 500:
+        if Z * X * Y > 500 or "long_path" in case:
             # the same judgement, all voxels at once (large boxes)
-            return out + judge_raster(xyz, r, t["pids"], [float(v) for v in rs], res["shape"], res["lit"])
+            return out + judge_raster(xyz, r, t["pids"], [float(v) for v in rs], res["shape"], res["lit"], samples=None if "long_path" in case else 41)
         lit = {tuple(v) for v in res["lit"]}
         margin = 0.08
         bad = None
